@@ -569,6 +569,9 @@ func (cl *Cluster) processLocked(nc *NodeConn) {
 					ev.Raw = hex.EncodeToString(raw)
 				}
 				cl.log.Add(ev)
+				// the +OK is written while the proxy's iteration is being observed: the proxy reads it next time, and an
+				// end of file on this connection is noticed only after that
+				cl.log.Add(Event{Ev: "answerauto", N: nc.node.Name, Conn: nc.Id, K: name, Kind: "late"})
 			}
 			nc.c.Write([]byte("+OK\r\n"))
 			continue
